@@ -427,7 +427,7 @@ func (e *Env) ident(name string) SV {
 		return v
 	}
 	if gv, ok := g.db.Ghosts[name]; ok {
-		ty := g.resolveType(gv.Type, gv.File, nil)
+		ty := g.resolveType(gv.Type, gv.File, g.filePkg(gv.File))
 		return SV{e.ft.stateGet(e.st, "ghost|"+name, g.reg.STSort(ty)), ty}
 	}
 	if e.pkg != nil {
@@ -567,8 +567,10 @@ func (e *Env) call(n *ECall) SV {
 	case "ext":
 		a, b := e.ev(n.Args[0]), e.ev(n.Args[1])
 		return SV{"(ext_" + e.sort(a.Ty) + " " + a.T + " " + b.T + ")", tBool}
-	case "bytes", "string":
-		return SV{e.ev(n.Args[0]).T, tString}
+	case "bytes":
+		return SV{"(tobytes " + e.ev(n.Args[0]).T + ")", goT(types.NewSlice(types.Typ[types.Byte]))}
+	case "string":
+		return SV{"(tostring " + e.ev(n.Args[0]).T + ")", tString}
 	case "seq":
 		// seq(a, b, ...) sequence literal (element type from first argument)
 		if len(n.Args) == 0 {
@@ -583,15 +585,10 @@ func (e *Env) call(n *ECall) SV {
 			}
 			ts = append(ts, v.T)
 		}
-		es := e.sort(first.Ty)
-		var sl types.Type
-		if first.Ty.Go != nil {
-			if es == "Str" {
-				sl = types.NewSlice(types.NewSlice(types.Typ[types.Byte]))
-			} else {
-				sl = types.NewSlice(first.Ty.Go)
-			}
+		if first.Ty == nil || first.Ty.Go == nil {
+			efail("seq() of untyped elements")
 		}
+		sl := types.NewSlice(first.Ty.Go)
 		ss := g.reg.SortOf(sl)
 		return SV{g.seqLit(ss, ts), goT(sl)}
 	case "emptyseq":
@@ -601,13 +598,29 @@ func (e *Env) call(n *ECall) SV {
 		// hint(e): always true; only plants the term e in the query so that triggers can fire on it
 		xv := e.ev(n.Args[0])
 		srt := e.sort(xv.Ty)
-		fn := "hint_" + mangle(srt)
-		if !g.zeroFns[fn] {
-			g.zeroFns[fn] = true
-			g.reg.decls = append(g.reg.decls, fmt.Sprintf("(declare-fun %s (%s) Bool)", fn, srt),
-				fmt.Sprintf("(assert (forall ((x %s)) (! (%s x) :pattern ((%s x)))))", srt, fn, fn))
-		}
+		fn := g.hintFn(srt)
 		return SV{"(" + fn + " " + xv.T + ")", tBool}
+	case "mar":
+		// mar(x): protobuf encoding of message value x (E-codec)
+		xv := e.ev(n.Args[0])
+		if xv.Ty == nil || xv.Ty.Go == nil {
+			efail("mar of untyped value")
+		}
+		mar, _, _ := g.codecFns(xv.Ty.Go)
+		return SV{"(" + mar + " " + xv.T + ")", goT(types.NewSlice(types.Typ[types.Byte]))}
+	case "unm", "venc":
+		// unm(T, b): message decoded from b ; venc(T, b): b is a valid encoding of a T
+		id, ok := exprTypeName(n.Args[0])
+		if !ok {
+			efail("%s(T, b) needs a type name", n.Fn)
+		}
+		ty := e.resolveType(id)
+		bv := e.ev(n.Args[1])
+		_, unm, venc := g.codecFns(ty.Go)
+		if n.Fn == "unm" {
+			return SV{"(" + unm + " " + bv.T + ")", ty}
+		}
+		return SV{"(" + venc + " " + bv.T + ")", tBool}
 	case "typeof":
 		xv := e.ev(n.Args[0])
 		return SV{"(itag " + xv.T + ")", tInt}
@@ -650,19 +663,19 @@ func (e *Env) call(n *ECall) SV {
 	}
 	var args []SV
 	for i, a := range n.Args {
-		pt := g.resolveType(sf.Params[i].Type, sf.File, nil)
+		pt := g.resolveType(sf.Params[i].Type, sf.File, g.filePkg(sf.File))
 		v := e.coerceNil(e.ev(a), pt)
 		if as, ps := e.sort(v.Ty), e.sort(pt); as != ps {
 			efail("spec function %s: argument %d has sort %s, want %s", n.Fn, i, as, ps)
 		}
 		args = append(args, v)
 	}
-	rt := g.resolveType(sf.Ret, sf.File, nil)
+	rt := g.resolveType(sf.Ret, sf.File, g.filePkg(sf.File))
 	if sf.Body != nil && !sf.Opaque {
 		if e.depth > 20 {
 			efail("spec function expansion too deep (%s)", n.Fn)
 		}
-		ne := &Env{ft: e.ft, vars: map[string]SV{}, st: e.st, old: e.old, file: sf.File, bound: e.bound, depth: e.depth + 1}
+		ne := &Env{ft: e.ft, vars: map[string]SV{}, st: e.st, old: e.old, file: sf.File, pkg: g.filePkg(sf.File), bound: e.bound, depth: e.depth + 1}
 		for i, p := range sf.Params {
 			ne.vars[p.Name] = args[i]
 		}
@@ -678,4 +691,15 @@ func (e *Env) call(n *ECall) SV {
 		ts = append(ts, a.T)
 	}
 	return SV{"(sf_" + sf.Name + " " + strings.Join(ts, " ") + ")", rt}
+}
+
+// hintFn declares (once) an always-true predicate used to plant terms for trigger matching.
+func (g *Gen) hintFn(srt string) string {
+	fn := "hint_" + mangle(srt)
+	if !g.zeroFns[fn] {
+		g.zeroFns[fn] = true
+		g.reg.decls = append(g.reg.decls, fmt.Sprintf("(declare-fun %s (%s) Bool)", fn, srt),
+			fmt.Sprintf("(assert (forall ((x %s)) (! (%s x) :pattern ((%s x)))))", srt, fn, fn))
+	}
+	return fn
 }
